@@ -1071,6 +1071,50 @@ def gen_exponent(rng, depth, vs, polar):
     return ("sub", ("num", 3, 0), ("num", rng.randint(1, 2), 0)) if depth > 0 else ("num", 2, 0)
 
 
+def long_decimal(rng, lo=17, hi=22, unit=False):
+    """a rational whose decimal notation has 17-22 significant digits; with some probability one that
+    differs from a short decimal only in its last (18th or later) digit.  unit: strictly between 0 and 1"""
+    digits = rng.randint(lo, hi)
+    if rng.random() < 0.4:
+        short = Fraction(rng.choice([1, 2, 25, 5, 75, 125, 3, 1]), rng.choice([10, 100, 1000, 4, 8]))
+        if not unit:
+            short += rng.choice([0, 0, 1, 2, 17])
+        k = max(digits, 18)
+        q = short + Fraction(rng.choice([1, 1, 3, 7]), 10 ** k)
+    else:
+        m = rng.randint(10 ** (digits - 1), 10 ** digits - 1)
+        if m % 10 == 0:
+            m += rng.randint(1, 9)
+        scale = digits if unit else rng.choice([digits, digits, digits - 1, digits - 10, digits + 2])
+        q = Fraction(m, 10 ** scale)
+    if unit and not (0 < q < 1):
+        q = q - int(q)
+        if q == 0:
+            q = Fraction(1, 4) + Fraction(1, 10 ** 19)
+    return q
+
+
+def count_literals(e):
+    """(number of numeric literals, number of decimal literals) in a surface expression"""
+    if e[0] == "num":
+        return 1, (1 if e[2] > 0 else 0)
+    if e[0] == "var":
+        return 0, 0
+    n = d = 0
+    for a in e[1:]:
+        x, y = count_literals(a)
+        n += x
+        d += y
+    return n, d
+
+
+def may_combine_floats(e):
+    """can the CAS combine a decimal literal of e with another numeric constant in float arithmetic?
+    A lone decimal literal (the only numeral of its expression) cannot: it must be read exactly."""
+    n, d = count_literals(e)
+    return d >= 1 and n >= 2
+
+
 def has_decimal(e):
     if e[0] == "num":
         return e[2] > 0
@@ -1088,11 +1132,16 @@ class ProgGen:
         self.compound_probs = k.get("compound_probs", rng.random() < 0.3)
         self.params = k.get("params", rng.random() < 0.3)
         self.decarith = k.get("decarith", rng.random() < 0.15)
+        self.longdec = k.get("longdec", rng.random() < 0.35)
         self.types = k.get("types", rng.random() < 0.35)
         self.vars = VARS[:rng.randint(2, 5)]
         self.features = set()
 
     def const(self):
+        if self.longdec and self.rng.random() < 0.3:
+            self.features.add("long-decimal")
+            q = long_decimal(self.rng)
+            return ("const", -q if self.rng.random() < 0.2 else q)
         return ("const", Fraction(self.rng.choice(CONSTS)))
 
     def expr(self, depth):
@@ -1131,6 +1180,17 @@ class ProgGen:
         den = rng.choice([2, 3, 4, 5, 6, 8, 10])
         cuts = sorted(rng.randint(0, den) for _ in range(k - 1))
         parts = [Fraction(b - a, den) for a, b in zip([0] + cuts, cuts + [den])]
+        if self.longdec and rng.random() < 0.5:
+            # probabilities with 17-22 significant digits: move a long amount between two entries
+            self.features.add("long-decimal-prob")
+            i, j = rng.sample(range(k), 2)
+            if parts[i] > 0:
+                eps = long_decimal(rng, unit=True) * parts[i]
+                eps = Fraction(int(eps * 10 ** 21), 10 ** 21)
+                if 0 < eps < parts[i]:
+                    parts[i] -= eps
+                    parts[j] += eps
+            return [("const", q) for q in parts]
         out = []
         for q in parts:
             if self.compound_probs and q > 0 and rng.random() < 0.5:
